@@ -726,6 +726,101 @@ pub fn editdoc(ctx: &Ctx, rng: &mut Rng, o: &mut Out) {
   o.oracle("c10_text", true, json!({"cases": text_cases}));
   o.oracle("c10_tree", true, json!({"cases": tree_cases - tree_fail, "histories": produced, "per_lang": per_lang}));
 
+  // 1b. the search clause: later searches on the edited document see what a fresh parse would
+  // see — also for node kinds the document did not contain when it was searched before the edit.
+  // A top-level item that owns a node kind no other item of the file has is cut out, the shortened
+  // document is searched (whatever is remembered per document is remembered now), the item is put
+  // back with `edit`, and every search is compared with the same search on a fresh parse.
+  let mut search_cases = 0usize;
+  let mut search_docs = 0usize;
+  let per_base = if ctx.thorough { 12 } else { 3 };
+  for b in &bases {
+    let unit_sg = b.lang.ast_grep(&b.unit);
+    let tops: Vec<Node<SDoc>> = unit_sg.root().children().filter(|c| c.is_named() && c.range().len() > 0).collect();
+    if tops.len() < 2 {
+      continue;
+    }
+    let kinds_of = |n: &Node<SDoc>| -> std::collections::BTreeSet<u16> { n.dfs().filter(|d| d.is_named()).map(|d| d.kind_id()).collect() };
+    let all: Vec<std::collections::BTreeSet<u16>> = tops.iter().map(kinds_of).collect();
+    let mut order: Vec<usize> = (0..tops.len()).collect();
+    for i in (1..order.len()).rev() {
+      order.swap(i, rng.below(i + 1));
+    }
+    let mut done = 0usize;
+    for &i in &order {
+      if done >= per_base {
+        break;
+      }
+      let unique: Vec<u16> = all[i].iter().copied().filter(|k| all.iter().enumerate().all(|(j, s)| j == i || !s.contains(k))).collect();
+      if unique.is_empty() {
+        continue;
+      }
+      let start = tops[i].range().start;
+      let end = if i + 1 < tops.len() { tops[i + 1].range().start } else { tops[i].range().end };
+      let item = b.unit[start..end].to_string();
+      let removed = format!("{}{}", &b.unit[..start], &b.unit[end..]);
+      let mut sg = b.lang.ast_grep(&removed);
+      if !clean(&dfs(&sg.root())) || sg.root().dfs().any(|d| unique.contains(&d.kind_id())) {
+        continue;
+      }
+      done += 1;
+      search_docs += 1;
+      // a small single-line node of an introduced kind, as a pattern
+      let probe: Option<String> = tops[i]
+        .dfs()
+        .filter(|d| unique.contains(&d.kind_id()) && d.range().len() <= 80 && !d.text().contains('\n'))
+        .map(|d| d.text().to_string())
+        .next();
+      let pat = probe.as_ref().and_then(|t| Pattern::try_new(t, b.lang).ok());
+      // searches before the edit: kinds that are absent, a kind that is present, the pattern, a rewrite attempt
+      for k in unique.iter().take(4) {
+        let _ = sg.root().find_all(KindMatcher::from_id(*k)).count();
+        let _ = sg.root().find(KindMatcher::from_id(*k)).is_some();
+      }
+      let _ = sg.root().find_all(KindMatcher::from_id(tops[(i + 1) % tops.len()].kind_id())).count();
+      if let Some(p) = &pat {
+        let _ = sg.root().find_all(p).count();
+        let _ = sg.root().replace(p, "x").is_some();
+      }
+      let e = Edit::<String> { position: start, deleted_length: 0, inserted_text: item.as_bytes().to_vec() };
+      if sg.edit(e).is_err() || sg.source() != b.unit {
+        o.oracle("c10_text", false, json!({"fp": "putting a top-level item back does not give the original text", "input": {"lang": b.dir, "item": item, "pos": start}}));
+        continue;
+      }
+      let fresh = b.lang.ast_grep(&b.unit);
+      let ranges = |g: &Sg, k: u16| -> Vec<(usize, usize)> { g.root().find_all(KindMatcher::from_id(k)).map(|m| (m.range().start, m.range().end)).collect() };
+      let mut ks: Vec<u16> = unique.clone();
+      ks.extend(all[i].iter().copied().filter(|k| !unique.contains(k)).take(24));
+      let mut bad: Option<Value> = None;
+      for k in ks {
+        search_cases += 1;
+        let (a, f) = (ranges(&sg, k), ranges(&fresh, k));
+        let first = sg.root().find(KindMatcher::from_id(k)).map(|m| m.range().start);
+        if a != f || first != f.first().map(|r| r.0) {
+          let introduced = unique.contains(&k);
+          bad = Some(json!({"fp": format!("search on the edited document differs from a fresh parse: kind search, introduced={introduced}"),
+            "input": {"lang": b.dir, "text": removed, "steps": [{"api": ["edit"], "pos": start, "del": 0, "ins": item}]},
+            "kind": k, "edited": a.len(), "fresh": f.len()}));
+          break;
+        }
+      }
+      if let (None, Some(p)) = (&bad, &pat) {
+        search_cases += 1;
+        let a: Vec<(usize, usize)> = sg.root().find_all(p).map(|m| (m.range().start, m.range().end)).collect();
+        let f: Vec<(usize, usize)> = fresh.root().find_all(p).map(|m| (m.range().start, m.range().end)).collect();
+        if a != f {
+          bad = Some(json!({"fp": "search on the edited document differs from a fresh parse: pattern search",
+            "input": {"lang": b.dir, "text": removed, "steps": [{"api": ["edit"], "pos": start, "del": 0, "ins": item}]},
+            "pattern": probe, "edited": a.len(), "fresh": f.len()}));
+        }
+      }
+      if let Some(f) = bad {
+        o.oracle("c10_search", false, f);
+      }
+    }
+  }
+  o.oracle("c10_search", true, json!({"cases": search_cases, "documents": search_docs}));
+
   // 2. function level: `accept_edit` and `position_for_offset` on small texts, out-of-range included
   let m = if ctx.thorough { 40_000 } else { 4_000 };
   let pieces = ["a", "bc", "\n", "\n\n", "é", "中", "𝒳", " ", "\r\n", "x = 1", ""];
